@@ -851,13 +851,18 @@ type xformCase struct {
 	Shape gen.Shape3 `json:"shape"`
 	X     gen.Xform3 `json:"x"`
 	Rays  []ray3     `json:"rays"`
+	Balls []ray3     `json:"balls,omitempty"` // O = centre in the transformed space, D[0] = radius factor
 }
 
 func genXform(t *rapid.T) xformCase {
 	s := gen.Shape3Gen(t, gen.AllKinds3, 1, 5, "shape")
 	x := gen.Xform3Gen(t, true, "x")
 	img := x.RefApply(s.Centre())
-	return xformCase{Shape: s, X: x, Rays: genRays3(t, img, s.Size()*x.DistFactor(), 8)}
+	c := xformCase{Shape: s, X: x, Rays: genRays3(t, img, s.Size()*x.DistFactor(), 8)}
+	for i := 0; i < 5; i++ {
+		c.Balls = append(c.Balls, ray3{O: img.Add(gen.Vec3(t, 2*s.Size()*x.DistFactor(), "bc")), D: kit.V3{gen.LogF(t, 0.01, 100, "rf"), 0, 0}})
+	}
+	return c
 }
 
 func checkXform(c xformCase, o *kit.Obs) error {
@@ -877,6 +882,28 @@ func checkXform(c xformCase, o *kit.Obs) error {
 				return fmt.Errorf("%s: ray %+v: the collision at parameter %.17g maps back to %v, which is %g away from the original surface", what, r, h.scale, q, d)
 			}
 			o.NonTrivial()
+		}
+	}
+	// ball queries: a ball of radius r around p touches the image of the surface exactly when the ball of
+	// radius r/f around the pre-image of p touches the original (f = the transform's distance factor)
+	for _, b := range c.Balls {
+		q := c.X.RefInverse(b.O)
+		if coneNearAxis(c.Shape, q) {
+			continue
+		}
+		ref := c.Shape.RefSDF(q)
+		dist := math.Abs(ref.SDF) * f // distance from b.O to the transformed surface
+		scale := f * (c.Shape.Size() + q.Dist(c.Shape.Centre()))
+		for _, rad := range []float64{dist * b.D[0], f * c.Shape.Size() * b.D[0] * 0.1} {
+			if math.Abs(rad-dist) <= 1e-9*scale {
+				continue
+			}
+			if f != 1 {
+				o.Label("ball-query-under-scale")
+			}
+			if got, want := tc.SphereCollision(m3.C3(b.O), rad), dist <= rad; got != want {
+				return fmt.Errorf("%s: SphereCollision(%v, %g) = %v but the transformed surface is %g away (distance factor %g)", what, b.O, rad, got, dist, f)
+			}
 		}
 	}
 	return nil
